@@ -21,12 +21,15 @@ var c15Progs = []struct {
 	{"lgdt_data", "\tLGDT [{A}]\n\tDB 0\n{A}:\n\tDW 0\n\tDD {A}\n{B} EQU 0x0ff0\n\tMOV BYTE [{B}],8\n", 2, false},
 	{"disp_resb", "{B} EQU 4\n{A}:\n\tMOV AX,[BX+{B}]\n\tRESB 0x20-$\n\tDW {A}\n{C} EQU {B}*2\n\tRESB {C}\n", 3, false},
 	{"org_prog", "\tORG 0x7c00\n{A}:\n\tMOV SI,{B}\n\tJMP {C}\n{B}:\n\tDB \"x\",0\n{C}:\n\tJNZ {A}\n\tDW {B}\n", 3, false},
+	{"mem_label", "\tMOV AX,[{A}]\n\tADD WORD [{B}],1\n\tCMP BYTE [{C}],0\n\tMOV [{A}],BX\n\tSUB CX,[{B}]\n\tNOT WORD [{C}]\n\tHLT\n{A}:\n\tDW 0\n{B}:\n\tDW 0\n{C}:\n\tDB 0\n", 3, false},
 	{"wcoff", "[FORMAT \"WCOFF\"]\n[INSTRSET \"i486p\"]\n[BITS 32]\n[FILE \"f.nas\"]\n\tGLOBAL {A}, {B}\n[SECTION .text]\n{A}:\n\tRET\n{B}:\n\tMOV EAX,1\n\tRET\n{C}:\n\tHLT\n", 3, true},
 	{"wcoff_one_by_one", "[FORMAT \"WCOFF\"]\n[BITS 32]\n\tGLOBAL {C}\n\tGLOBAL {A}\n[SECTION .text]\n{A}:\n\tNOP\n{B}:\n\tRET\n{C}:\n\tMOV ECX,[ESP+4]\n\tRET\n", 3, true},
 }
 
 var c15Names = []string{"a", "aa", "a_", "A", "_a", "a1", "z", "Z9", "y_", "n234567890123456789012345678901234567890", "prefix89", "prefix89x", "prefix89y", "prefix89xy", "prefix89xyz", "kbd_wait", "mmio_done", "xmm_save", "Kick", "bnd_1", "zmm", "st_top", "cr_x", "dr7x",
-	"n23456789012345678901234567890123456789X", "Aa", "aA"}
+	"n23456789012345678901234567890123456789X", "Aa", "aA",
+	// upper-case names that contain a register name (AL in VALUE, BL in TABLE, GS in FLAGS, AX in MAXLEN, ES in RESULT, ...)
+	"VALUE", "TABLE", "FLAGS", "MAXLEN", "RESULT", "XEAX", "CSEG", "AXIS", "ESP_SAVE", "CR0_COPY"}
 
 func c15Fill(tmpl string, names [3]string) string {
 	s := strings.ReplaceAll(tmpl, "{A}", names[0])
@@ -37,7 +40,7 @@ func c15Fill(tmpl string, names [3]string) string {
 func c15Scenario(tier string) *core.Scenario {
 	names := c15Names
 	if tier != "thorough" {
-		names = []string{"a", "aa", "A", "a_", "aA", "prefix89", "prefix89x", "prefix89xy", "n234567890123456789012345678901234567890", "n23456789012345678901234567890123456789X", "Z9", "kbd_wait", "mmio_done", "xmm_save", "Kick"}
+		names = []string{"a", "aa", "A", "a_", "aA", "prefix89", "prefix89x", "prefix89xy", "n234567890123456789012345678901234567890", "n23456789012345678901234567890123456789X", "Z9", "kbd_wait", "mmio_done", "xmm_save", "Kick", "VALUE", "FLAGS", "MAXLEN"}
 	}
 	ref := [3]string{"first_sym", "second_sym", "third_sym"}
 	return &core.Scenario{
@@ -71,9 +74,9 @@ func c15Scenario(tier string) *core.Scenario {
 			}
 			src, rsrc := c15Fill(p.tmpl, nm), c15Fill(p.tmpl, ref)
 			return &core.Case{
-				Key:  fmt.Sprintf("%s|%v", p.name, nm[:p.nsym]),
-				Feat: feat("prog", p.name, "a", nm[0], "b", nm[1], "c", nm[2]),
-				Srcs: []string{src, rsrc},
+				Key:       fmt.Sprintf("%s|%v", p.name, nm[:p.nsym]),
+				Feat:      feat("prog", p.name, "a", nm[0], "b", nm[1], "c", nm[2]),
+				FreshRefs: true, Srcs: []string{src, rsrc},
 				Judge: func(rs []*core.Result) core.Verdict {
 					v := core.Verdict{}
 					r, rr := rs[0], rs[1]
